@@ -489,6 +489,9 @@ func (c *Ctx) checkInvalidate(rt *readerType) int {
 		}
 		fv := fs.field
 		if core.GuardedBy(fs.st.Block(), func(cond ssa.Value) (bool, bool) {
+			if f2, tmn, ok := c.fieldNilPredicate(read, cond); ok && f2 == fv {
+				return tmn, true
+			}
 			x, trueMeansNil, ok := core.NilCmp(cond)
 			if !ok {
 				return false, false
@@ -555,6 +558,13 @@ func (c *Ctx) checkInvalidate(rt *readerType) int {
 					}
 					if i+1 < len(path) {
 						if cond, taken, ok := core.BranchTaken(b, path[i+1]); ok {
+							if f2, tmn, ok := c.fieldNilPredicate(m, cond); ok && f2 == lf {
+								if taken == tmn {
+									state = "nil"
+								} else if state != "nil" {
+									state = "set"
+								}
+							}
 							if x, trueMeansNil, ok := core.NilCmp(cond); ok && loads[x] {
 								if taken == trueMeansNil {
 									state = "nil"
@@ -872,7 +882,31 @@ func (c *Ctx) sizeQueries() []*ssa.Function {
 			continue
 		}
 		res := fn.Signature.Results()
-		if res.Len() != 3 || !isIntegerType(res.At(0).Type()) || !core.IsErrorType(res.At(2).Type()) || !isCursorT(res.At(1).Type()) {
+		if res.Len() < 2 || !core.IsErrorType(res.At(res.Len()-1).Type()) {
+			continue
+		}
+		hasInt, hasRdr := false, false
+		for i := 0; i < res.Len()-1; i++ {
+			t := res.At(i).Type()
+			if isIntegerType(t) {
+				hasInt = true
+			}
+			if isCursorT(t) {
+				hasRdr = true
+			}
+			// the pair carried in a small struct result
+			if _, st := structOf(t); st != nil {
+				for k := 0; k < st.NumFields(); k++ {
+					if isIntegerType(st.Field(k).Type()) {
+						hasInt = true
+					}
+					if _, isIface := st.Field(k).Type().Underlying().(*types.Interface); isIface && isCursorT(st.Field(k).Type()) {
+						hasRdr = true
+					}
+				}
+			}
+		}
+		if !hasInt || !hasRdr {
 			continue
 		}
 		out = append(out, fn)
@@ -909,12 +943,36 @@ func (c *Ctx) checkSizeQueryRewinds(rule string) {
 						}
 					case *ssa.Return:
 						rr := core.ResolvedResults(x)
-						rd := rr[1]
-						if core.IsNilConst(rd) {
-							continue
+						// the readers handed out: reader-typed results, and reader-typed fields of a struct result built here
+						var handed []ssa.Value
+						for _, rv := range rr {
+							if core.IsNilConst(rv) {
+								continue
+							}
+							if isCursorT(rv.Type()) {
+								handed = append(handed, rv)
+								continue
+							}
+							if u, ok := rv.(*ssa.UnOp); ok && u.Op == token.MUL {
+								if al, ok := u.X.(*ssa.Alloc); ok {
+									for _, ref := range *al.Referrers() {
+										fa, ok := ref.(*ssa.FieldAddr)
+										if !ok {
+											continue
+										}
+										for _, r2 := range *fa.Referrers() {
+											if st, ok := r2.(*ssa.Store); ok && st.Addr == ssa.Value(fa) && !core.IsNilConst(st.Val) && isCursorT(st.Val.Type()) {
+												handed = append(handed, st.Val)
+											}
+										}
+									}
+								}
+							}
 						}
-						if st, seen := state[rd]; seen && st != "start" {
-							bad = append(bad, fmt.Sprintf("return at %s hands out a reader that was moved and not put back with Seek(0, io.SeekStart)", c.P.Pos(x.Pos())))
+						for _, rd := range handed {
+							if st, seen := state[rd]; seen && st != "start" {
+								bad = append(bad, fmt.Sprintf("return at %s hands out a reader that was moved and not put back with Seek(0, io.SeekStart)", c.P.Pos(x.Pos())))
+							}
 						}
 					}
 				}
@@ -927,4 +985,38 @@ func (c *Ctx) checkSizeQueryRewinds(rule string) {
 		r.Check(len(bad) == 0, rule, key, c.P.Pos(q.Pos()), "every reader handed out was last positioned with Seek(0, io.SeekStart)", uniqJoin(bad))
 	}
 	r.Floor(rule, n, 1)
+}
+
+// fieldNilPredicate: cond is (the negation of) a call, on fn's receiver, of a one-line accessor method that returns
+// `recv.F == nil` or `recv.F != nil`; returns F and whether a true condition means the field is nil.
+func (c *Ctx) fieldNilPredicate(fn *ssa.Function, cond ssa.Value) (*types.Var, bool, bool) {
+	neg := false
+	if u, ok := cond.(*ssa.UnOp); ok && u.Op == token.NOT {
+		cond, neg = u.X, true
+	}
+	call, ok := cond.(*ssa.Call)
+	if !ok || len(fn.Params) == 0 {
+		return nil, false, false
+	}
+	h := call.Call.StaticCallee()
+	if h == nil || len(h.Blocks) != 1 || len(h.Params) != 1 || len(call.Call.Args) != 1 || call.Call.Args[0] != ssa.Value(fn.Params[0]) {
+		return nil, false, false
+	}
+	rets := core.Returns(h)
+	if len(rets) != 1 || len(rets[0].Results) != 1 {
+		return nil, false, false
+	}
+	x, trueMeansNil, ok := core.NilCmp(rets[0].Results[0])
+	if !ok {
+		return nil, false, false
+	}
+	u, ok := x.(*ssa.UnOp)
+	if !ok || u.Op != token.MUL {
+		return nil, false, false
+	}
+	fv := c.fieldOfAddr(h, u.X)
+	if fv == nil {
+		return nil, false, false
+	}
+	return fv, trueMeansNil != neg, true
 }
